@@ -2,4 +2,4 @@ From Capy Require Import Common.Util Model.Footprint Spec.FootprintSpec Proofs.F
 Require Extraction.
 Require Import ExtrOcamlBasic.
 Extraction Language OCaml.
-Separate Extraction footprint dest_size known_class within hi.
+Separate Extraction footprint footprint_sz dest_size known_class known_class_sz within hi.
